@@ -1,11 +1,18 @@
-// C05-O4 (Handshake packet, RFC 9000 17.2.4): the real header decoder / encoder vs the independent
+// C05-O4 (Initial packet, RFC 9000 17.2.2): the real header decoder / encoder vs the independent
 // reference parser in packet_ref.rs.
-//   Handshake Packet {
-//     Header Form (1) = 1, Fixed Bit (1) = 1, Long Packet Type (2) = 2, Reserved Bits (2),
+//   Initial Packet {
+//     Header Form (1) = 1, Fixed Bit (1) = 1, Long Packet Type (2) = 0, Reserved Bits (2),
 //     Packet Number Length (2), Version (32), Destination Connection ID Length (8),
 //     Destination Connection ID (0..160), Source Connection ID Length (8),
-//     Source Connection ID (0..160), Length (i), Packet Number (8..32), Packet Payload (8..),
+//     Source Connection ID (0..160), Token Length (i), Token (..), Length (i),
+//     Packet Number (8..32), Packet Payload (8..),
 //   }
+// NOTE on connection id lengths: `ProtectedInitial::decode` deliberately does NOT apply the version 1
+// limit of 20 bytes ("servers SHOULD be able to read longer connection IDs from other QUIC versions"
+// to form a Version Negotiation packet, RFC 9000 17.2): at this layer the reference is the RFC 8999
+// invariant (8-bit length, 0..=255).  The version 1 limit is applied by the endpoint after version
+// negotiation (`LocalId::try_from_bytes` / `PeerId::try_from_bytes` in s2n-quic-transport), which is
+// outside this crate.
 use super::*;
 #[cfg(not(kani))]
 use crate::kani;
@@ -26,13 +33,15 @@ fn peeked_version(b: &[u8]) -> u32 {
 fn diff<const N: usize>(orig: [u8; N], len: usize) -> bool {
     let mut bytes = orig;
     let version = peeked_version(&orig);
-    let res = ProtectedHandshake::decode(orig[0], version, DecoderBufferMut::new(&mut bytes[..len]));
-    match (res, ref_numbered(&orig[..len], false, V1_MAX_CID)) {
+    let res = ProtectedInitial::decode(orig[0], version, DecoderBufferMut::new(&mut bytes[..len]));
+    match (res, ref_numbered(&orig[..len], true, INVARIANT_MAX_CID)) {
         (Ok((packet, rest)), Some(r)) => {
             kani::cover!(r.front.dcid_len > 0 && r.front.scid_len > 0 && r.length > 0, "both connection ids and a payload");
             kani::cover!(r.packet_len < len, "coalesced: bytes left for the next packet");
-            kani::cover!(r.header_len - r.front.end == 2 && r.length > 0, "2-byte Length field");
+            kani::cover!(r.header_len - (r.token_at + r.token_len) == 2 && r.length > 0, "2-byte Length field");
             kani::cover!(r.length == 0, "empty remainder accepted at this layer");
+            kani::cover!(r.token_len > 0 && r.length > 0, "token present");
+            kani::cover!(r.token_len == 0 && r.token_at - r.front.end == 2, "2-byte Token Length of zero (non-minimal varint)");
             assert!(packet.version == r.front.version);
             let dcid = packet.destination_connection_id();
             assert!(dcid.len() == r.front.dcid_len);
@@ -44,6 +53,11 @@ fn diff<const N: usize>(orig: [u8; N], len: usize) -> bool {
             assert!(scid.len() == r.front.scid_len);
             if k < r.front.scid_len {
                 assert!(scid[k] == orig[r.front.scid_at + k]);
+            }
+            let token = packet.token();
+            assert!(token.len() == r.token_len);
+            if k < r.token_len {
+                assert!(token[k] == orig[r.token_at + k]);
             }
             // header / packet / datagram boundaries
             assert!(packet.payload.header_len == r.header_len);
@@ -59,7 +73,8 @@ fn diff<const N: usize>(orig: [u8; N], len: usize) -> bool {
             true
         }
         (Err(_), None) => {
-            kani::cover!(len > 6 && orig[5] == 0 && orig[6] == 0, "rejected: Length field truncated or beyond the datagram");
+            kani::cover!(len > 7 && orig[5] == 0 && orig[6] == 0 && orig[7] == 0, "rejected: Length field truncated or beyond the datagram");
+            kani::cover!(len > 7 && orig[5] == 0 && orig[6] == 0 && orig[7] as usize > len, "rejected: token longer than the datagram");
             false
         }
         (Ok(_), None) => panic!("decoder accepted a header the RFC reference rejects"),
@@ -67,56 +82,60 @@ fn diff<const N: usize>(orig: [u8; N], len: usize) -> bool {
     }
 }
 
-// every byte string of 5..=24 bytes whose first byte says Handshake
+// every byte string of 5..=24 bytes whose first byte says Initial
 const N: usize = 24;
 
 #[cfg_attr(kani, kani::proof)]
 #[cfg_attr(kani, kani::unwind(9))]
-fn verif_packet_handshake_decode_diff() {
+fn verif_packet_initial_decode_diff() {
     let orig: [u8; N] = kani::any();
     let len: usize = kani::any();
     kani::assume(len >= 5 && len <= N);
-    kani::assume(orig[0] >> 4 == 0b1110);
+    kani::assume(orig[0] >> 4 == 0b1100);
     diff(orig, len);
 }
 
-// The 24-byte bound cannot hold a complete header with a 21-byte connection id, so there the rule
-// "> 20 MUST be dropped" only shows up together with truncation.  Here the datagram has room for two
-// 21-byte connection ids and a one-byte Length: 5 + 1 + 21 + 1 + 21 + 1 + 2 = 52.
+// Connection ids longer than 20 bytes are ACCEPTED here (see the note at the top): a datagram with
+// room for two 21-byte connection ids, 5 + 1 + 21 + 1 + 21 + 1 + 1 + 1 = 52.
 const N_CID: usize = 52;
 
 #[cfg_attr(kani, kani::proof)]
 #[cfg_attr(kani, kani::unwind(9))]
-fn verif_packet_handshake_cid_bound() {
+fn verif_packet_initial_cid_bound() {
     let orig: [u8; N_CID] = kani::any();
     let len: usize = kani::any();
     kani::assume(len >= 5 && len <= N_CID);
-    kani::assume(orig[0] >> 4 == 0b1110);
+    kani::assume(orig[0] >> 4 == 0b1100);
     let accepted = diff(orig, len);
     let dl = orig[5] as usize;
-    if dl <= 21 {
+    if dl <= 43 {
         let sl = orig[6 + dl] as usize;
         kani::cover!(accepted && dl == 20 && sl == 20, "20/20-byte connection ids accepted");
-        kani::cover!(!accepted && len == N_CID && dl == 21 && sl == 0 && orig[28] == 0, "rejected: 21-byte destination connection id in a complete header");
-        kani::cover!(!accepted && len == N_CID && dl == 0 && sl == 21 && orig[28] == 0, "rejected: 21-byte source connection id in a complete header");
+        kani::cover!(accepted && dl == 21 && sl == 21, "21/21-byte connection ids accepted at this layer (other versions)");
+        kani::cover!(accepted && dl == 43 && sl == 0, "43-byte destination connection id accepted at this layer");
+        kani::cover!(!accepted && len == N_CID && dl == 43 && sl == 1, "rejected: header does not fit the datagram");
     }
 }
 
-// encode -> reference parse -> decode.  `EncoderValue for Handshake<_, _, TruncatedPacketNumber, _>` is the
-// keyless whole-packet encoder; its header part is `Handshake::encode_header`, the function the
+// encode -> reference parse -> decode.  `EncoderValue for Initial<_, _, _, TruncatedPacketNumber, _>` is the
+// keyless whole-packet encoder; its header part is `Initial::encode_header`, the function the
 // production `PacketEncoder::encode_packet` emits the header with (packet_encoding.rs drives that one).
 const CID: usize = 20;
 const PAYLOAD: usize = 4;
-const CAP: usize = 1 + 4 + 1 + CID + 1 + CID + 1 + 4 + PAYLOAD;
+const TOKEN: usize = 4;
+const CAP: usize = 1 + 4 + 1 + CID + 1 + CID + 1 + TOKEN + 1 + 4 + PAYLOAD;
 
 #[cfg_attr(kani, kani::proof)]
 #[cfg_attr(kani, kani::unwind(22))]
-fn verif_packet_handshake_roundtrip() {
+fn verif_packet_initial_roundtrip() {
     use crate::packet::number::TruncatedPacketNumber;
     let version: u32 = kani::any();
     let dcid_bytes: [u8; CID] = kani::any();
     let scid_bytes: [u8; CID] = kani::any();
     let payload_bytes: [u8; PAYLOAD] = kani::any();
+    let token_bytes: [u8; TOKEN] = kani::any();
+    let tl: usize = kani::any();
+    kani::assume(tl <= TOKEN);
     let dl: usize = kani::any();
     let sl: usize = kani::any();
     let pl: usize = kani::any();
@@ -124,7 +143,7 @@ fn verif_packet_handshake_roundtrip() {
     let raw: u32 = kani::any();
     let pn_len: usize = kani::any();
     kani::assume(pn_len >= 1 && pn_len <= 4);
-    let space = PacketNumberSpace::Handshake;
+    let space = PacketNumberSpace::Initial;
     let (tpn, pn_val) = match pn_len {
         1 => (TruncatedPacketNumber::new(raw as u8, space), (raw as u8) as u32),
         2 => (TruncatedPacketNumber::new(raw as u16, space), (raw as u16) as u32),
@@ -134,10 +153,11 @@ fn verif_packet_handshake_roundtrip() {
         ),
         _ => (TruncatedPacketNumber::new(raw, space), raw),
     };
-    let packet = Handshake {
+    let packet = Initial {
         version,
         destination_connection_id: &dcid_bytes[..dl],
         source_connection_id: &scid_bytes[..sl],
+        token: &token_bytes[..tl],
         packet_number: tpn,
         payload: &payload_bytes[..pl],
     };
@@ -148,13 +168,13 @@ fn verif_packet_handshake_roundtrip() {
         enc.encode(&packet);
         enc.len()
     };
-    kani::cover!(written == CAP, "largest packet: 20/20-byte connection ids, 4-byte packet number, 4-byte payload");
-    kani::cover!(written == 9, "smallest packet");
+    kani::cover!(written == CAP, "largest packet: 20/20-byte connection ids, 4-byte token, 4-byte packet number, 4-byte payload");
+    kani::cover!(written == 10, "smallest packet");
     assert!(size == written);
-    // 17.2.4 first byte: form 1, fixed 1, type 2, reserved 00, packet number length - 1
-    assert!(storage[0] == 0b1110_0000 | (pn_len as u8 - 1));
+    // 17.2.2 first byte: form 1, fixed 1, type 0, reserved 00, packet number length - 1
+    assert!(storage[0] == 0b1100_0000 | (pn_len as u8 - 1));
     let orig = storage;
-    match ref_numbered(&orig[..written], false, V1_MAX_CID) {
+    match ref_numbered(&orig[..written], true, INVARIANT_MAX_CID) {
         Some(r) => {
             assert!(r.front.version == version);
             assert!(r.front.dcid_len == dl && r.front.scid_len == sl);
@@ -167,7 +187,12 @@ fn verif_packet_handshake_roundtrip() {
             }
             // Length = packet number + payload, in the shortest varint form (values < 64: 1 byte)
             assert!(r.length == (pn_len + pl) as u64);
-            assert!(r.header_len == r.front.end + 1);
+            // Token Length in the shortest varint form, then the token
+            assert!(r.token_at == r.front.end + 1 && r.token_len == tl);
+            if k < tl {
+                assert!(orig[r.token_at + k] == token_bytes[k]);
+            }
+            assert!(r.header_len == r.token_at + tl + 1);
             assert!(r.packet_len == written);
             // packet number big endian, then the payload
             let mut want: u32 = 0;
@@ -181,9 +206,9 @@ fn verif_packet_handshake_roundtrip() {
                 assert!(orig[r.header_len + pn_len + k] == payload_bytes[k]);
             }
         }
-        None => panic!("encoder output is not a well-formed Handshake packet"),
+        None => panic!("encoder output is not a well-formed Initial packet"),
     }
-    let (back, rest) = ProtectedHandshake::decode(orig[0], peeked_version(&orig), DecoderBufferMut::new(&mut storage[..written])).unwrap();
+    let (back, rest) = ProtectedInitial::decode(orig[0], peeked_version(&orig), DecoderBufferMut::new(&mut storage[..written])).unwrap();
     assert!(rest.is_empty());
     assert!(back.version == version);
     assert!(back.destination_connection_id().len() == dl);
@@ -195,6 +220,10 @@ fn verif_packet_handshake_roundtrip() {
     if k < sl {
         assert!(back.source_connection_id()[k] == scid_bytes[k]);
     }
+    assert!(back.token().len() == tl);
+    if k < tl {
+        assert!(back.token()[k] == token_bytes[k]);
+    }
     assert!(back.payload.header_len == written - pn_len - pl);
     assert!(back.payload.len() == written);
 }
@@ -204,8 +233,8 @@ fn verif_packet_handshake_roundtrip() {
 #[test]
 fn verif_replay() {
     kani::replay(&[
-        ("verif_packet_handshake_decode_diff", verif_packet_handshake_decode_diff),
-        ("verif_packet_handshake_cid_bound", verif_packet_handshake_cid_bound),
-        ("verif_packet_handshake_roundtrip", verif_packet_handshake_roundtrip),
+        ("verif_packet_initial_decode_diff", verif_packet_initial_decode_diff),
+        ("verif_packet_initial_cid_bound", verif_packet_initial_cid_bound),
+        ("verif_packet_initial_roundtrip", verif_packet_initial_roundtrip),
     ]);
 }
